@@ -249,7 +249,7 @@ def conditional_ancestors(root, target, below=None):
             out.append(n)
         elif k == "Binary" and n.get("op") in ("&&", "||") and child_role == "b":
             out.append(n)
-        elif k == "Let" and child_role == "els":
+        elif k == "Let" and child_role == "else":
             out.append(n)
     return out
 
